@@ -248,3 +248,92 @@ def strip_namespace_spec(doc):
         if got != want(ns, sep, rules):
             return f'strip_namespace({ns!r}, {sep!r}, {rules!r}) = {got!r}, the rules below the namespace are {want(ns, sep, rules)!r}'
     return None
+
+
+# ---------------------------------------------------------------------------------------------------- C20
+def cancellable_action(doc):
+    """CancellableAction: runs its function at most once with the exact arguments, reports the outcome through itself,
+    refuses to run again or after cancellation."""
+    import asyncio
+    from plumpy import futures
+
+    async def main():
+        bad = []
+        calls = []
+
+        def act(*a, **k):
+            calls.append((a, k))
+            if a and a[0] == 'boom':
+                raise ValueError('boom')
+            return ('ret', a, k)
+
+        a1 = futures.CancellableAction(act)
+        a1.run(1, x=2)
+        if calls != [((1,), {'x': 2})] or a1.result() != ('ret', (1,), {'x': 2}):
+            bad.append(f'run(1, x=2): calls={calls}, result={a1.result()!r}')
+        try:
+            a1.run(3)
+            bad.append('second run() did not raise')
+        except futures.InvalidStateError:
+            pass
+        if len(calls) != 1:
+            bad.append(f'function ran {len(calls)} times')
+        a2 = futures.CancellableAction(act)
+        a2.cancel()
+        n = len(calls)
+        try:
+            a2.run(5)
+            bad.append('run() after cancel() did not raise')
+        except futures.InvalidStateError:
+            pass
+        except Exception as e:  # noqa
+            bad.append(f'run() after cancel() raised {type(e).__name__} instead of plumpy InvalidStateError')
+        if len(calls) != n:
+            bad.append('the function ran after cancellation')
+        a3 = futures.CancellableAction(act)
+        a3.run('boom')
+        if not isinstance(a3.exception(), ValueError):
+            bad.append('exception of the action not reported through the action future')
+        return '; '.join(bad)
+
+    return asyncio.new_event_loop().run_until_complete(main())
+
+
+def unwrap_kiwi(doc):
+    """unwrap_kiwi_future over chains of depth 1..3, every outcome at every level, every completion order"""
+    import itertools
+    import kiwipy
+    from plumpy import futures
+
+    for depth in (1, 2, 3):
+        for level in range(depth):
+            for outcome in ('value', 'exception', 'cancel'):
+                for order in itertools.permutations(range(depth)):
+                    chain = [kiwipy.Future() for _ in range(depth)]
+                    out = futures.unwrap_kiwi_future(chain[0])
+                    exc = RuntimeError('inner')
+
+                    def complete(i):
+                        if i == level:
+                            if outcome == 'value':
+                                chain[i].set_result('final' if i == depth - 1 else chain[i + 1])
+                            elif outcome == 'exception':
+                                chain[i].set_exception(exc)
+                            else:
+                                chain[i].cancel()
+                        elif i < level:
+                            chain[i].set_result(chain[i + 1])
+                    for i in order:
+                        if i <= level and not chain[i].done():
+                            complete(i)
+                    if outcome == 'value' and level < depth - 1:
+                        continue  # not yet at the innermost level
+                    if not out.done():
+                        return f'depth {depth}, {outcome} at level {level}, order {order}: unwrapping future never completed'
+                    if outcome == 'cancel' and not out.cancelled():
+                        return f'depth {depth}, cancellation at level {level}, order {order}: outer future is not cancelled ({out})'
+                    if outcome == 'exception' and (out.cancelled() or out.exception() is not exc):
+                        return f'depth {depth}, exception at level {level}, order {order}: outer future does not carry that exception'
+                    if outcome == 'value' and (out.cancelled() or out.exception() is not None or out.result() != 'final'):
+                        return f'depth {depth}, value at level {level}: outer future wrong'
+    return None
